@@ -332,8 +332,16 @@ def g_cond_incl(unit):
     return mk
 
 
+def note_null_deref(it, n):
+    """a member access through a pointer that may be NULL on this path: remember accesses through cond_incl"""
+    base = n.inner[0].src() if n.inner else ''
+    if n.kind == 'MemberExpr' and base == 'cond_incl':
+        it.ctx.emit('nullderef', n.src(), n.line)
+
+
 def pp2_config(unit):
     return {
+        'on_null_deref': note_null_deref,
         'models': {'equal': m_equal, 'expand_macro': m_expand_macro, 'strndup': m_strndup},
         'cut': {'skip_line': cut_tok('skip_line'), 'skip_cond_incl': cut_tok('skip_cond_incl'),
                 'eval_const_expr': h_eval_const_expr, 'find_macro': h_find_macro, 'push_cond_incl': h_push_cond_incl,
@@ -349,10 +357,15 @@ def pp2_config(unit):
     }
 
 
-def directive_scenario(T, d, second=None):
-    """`# d M` / next line `x y` (or `# second z`)"""
+def directive_scenario(T, d, second=None, variant=None):
+    """`# d M` / next line `x y` (or `# second z`).
+    variant 'word': the line is `w d M` (no `#`); 'midline': the `#` does not begin a line"""
     def mk(ctx):
         specs = T.line('a', [('#', 'TK_PUNCT'), (d, 'TK_IDENT'), ('M', 'TK_IDENT')])
+        if variant == 'word':
+            specs[0] = ('a0:w', 'w', 'TK_IDENT', True)
+        elif variant == 'midline':
+            specs[0] = ('a0:#', '#', 'TK_PUNCT', False)
         if second:
             specs += T.line('b', [('#', 'TK_PUNCT'), (second, 'TK_IDENT'), ('z', 'TK_IDENT')])
             specs += T.line('c', [('x', 'TK_IDENT'), ('y', 'TK_IDENT')])
@@ -365,9 +378,9 @@ def directive_scenario(T, d, second=None):
     return mk
 
 
-def explore_directive(P, unit, T, d, fn='preprocess2'):
+def explore_directive(P, unit, T, d, fn='preprocess2', variant=None):
     it = PPInterp(P, unit, pp2_config(unit))
-    res = it.explore(fn, directive_scenario(T, d), max_paths=400)
+    res = it.explore(fn, directive_scenario(T, d, variant=variant), max_paths=400)
     return it, res
 
 
